@@ -131,6 +131,11 @@ def run_for(ex, s, st):
         elif items is not None: outs.extend(unrolled(ex, s, s1, items))
         elif isinstance(it, (PSeq,)) or (isinstance(it, ZV) and it.kind == 'val'): outs.extend(for_seq(ex, s, s1, it))
         elif isinstance(it, PSet): outs.extend(for_set(ex, s, s1, it))
+        elif type(it).__name__ == 'PItems':
+            d = it.d
+            def pair(x, d=d): return PTuple([ZV('str', x), ZV('val', Opt.v(d.arr[x]))])
+            ks = fresh('k', StringSort())
+            outs.extend(for_set(ex, s, s1, PSet(z3.Lambda([ks], Opt.is_Some(d.arr[ks])), 'str'), item_of=pair))
         elif isinstance(it, PDict):
             ks = fresh('k', StringSort())
             outs.extend(for_set(ex, s, s1, PSet(z3.Lambda([ks], Opt.is_Some(it.arr[ks])), 'str')))
@@ -205,7 +210,7 @@ def _target_names(t):
     return {n.id for n in ast.walk(t) if isinstance(n, ast.Name)}
 
 
-def for_set(ex, s, st, it):
+def for_set(ex, s, st, it, item_of=None):
     """for x in <set>: arbitrary iteration order; ghost `done` = elements already visited"""
     key = loop_key(ex, s); inv = _inv(ex, key)
     pre = ex.spec.pre_view
@@ -219,7 +224,7 @@ def for_set(ex, s, st, it):
     res = []
     b = h.copy(); x = fresh('x', dom); b.assume(it.arr[x], Not(done[x])); b.label(f'loop[{key}].body')
     if ex.feasible(b):
-        item = ZV('ref', x) if it.ekind == 'ref' else ZV('val', x) if it.ekind == 'val' else ZV('str', x)
+        item = item_of(x) if item_of else ZV('ref', x) if it.ekind == 'ref' else ZV('val', x) if it.ekind == 'val' else ZV('str', x)
         for s2, f2 in ex.assign(b, s.target, item):
             for s3, f3 in ex.run_block(s.body, s2):
                 if f3 is NEXT or f3[0] == 'continue':
